@@ -207,9 +207,15 @@ impl Record {
 }
 
 impl CallSet {
+    /// File format version written into the header, decided by the data itself (the records are
+    /// the same whatever the header says).
+    pub fn vcf_version(&self) -> &'static str {
+        ["4.3", "4.2", "4.1", "4.3", "4.4", "4.2"][(self.samples.len() + self.records.len()) % 6]
+    }
+
     pub fn vcf_header(&self) -> String {
         let mut h = String::new();
-        h.push_str("##fileformat=VCFv4.3\n");
+        h.push_str(&format!("##fileformat=VCFv{}\n", self.vcf_version()));
         h.push_str("##FILTER=<ID=PASS,Description=\"All filters passed\">\n");
         h.push_str("##FILTER=<ID=q10,Description=\"Quality below 10\">\n");
         for c in &self.contigs {
@@ -329,7 +335,7 @@ impl Default for GenParams {
 
 fn record_strategy(p: &GenParams) -> impl Strategy<Value = Record> {
     (
-        (any::<u16>(), 1u64..=5000, prop_oneof![4 => Just(0u8), 24 => Just(1u8), 8 => Just(2u8), 4 => Just(3u8), 3 => 4u8..=11], prop::bool::weighted(0.1), any::<bool>(), prop_oneof![40 => Just(0u16), 4 => 1u16..=8, 1 => 100u16..=9000]),
+        (any::<u16>(), prop_oneof![1 => Just(0u64), 19 => 1u64..=5000], prop_oneof![4 => Just(0u8), 24 => Just(1u8), 8 => Just(2u8), 4 => Just(3u8), 3 => 4u8..=11], prop::bool::weighted(0.1), any::<bool>(), prop_oneof![40 => Just(0u16), 4 => 1u16..=8, 1 => 100u16..=9000]),
         (prop::option::weighted(0.5, 0u16..=999), 0u8..=2, 0u8..=7, any::<bool>(), prop::bool::weighted(0.3), any::<u8>(), any::<u8>()),
         prop::collection::vec(gt_strategy(p.odd_ploidy, p.missing_weight, p.multi_weight), p.max_samples),
     )
@@ -360,6 +366,8 @@ fn name_strategy() -> impl Strategy<Value = String> {
         1 => Just("sample".to_string()),
         1 => Just("NA".to_string()),
         1 => "[0-9][0-9A-Za-z_.]{0,3}",
+        // non-ASCII sample names (valid UTF-8 in VCF and BCF headers)
+        1 => prop_oneof![Just("Ünï".to_string()), Just("样本".to_string()), Just("é".to_string()), Just("ß_Ω".to_string())],
     ]
 }
 
@@ -406,7 +414,8 @@ pub fn finish_callset(contig_bases: Vec<String>, n_samples: usize, name_bases: V
             last_contig = r.contig;
             pos = 0;
         }
-        pos += r.pos;
+        // a step of 0 repeats the previous position (two records at one site are two records)
+        pos = (pos + r.pos).max(1);
         r.pos = pos;
     }
     CallSet { contigs, samples, records }
